@@ -392,9 +392,9 @@ pub fn run(ctx: &Ctx, p: Prop) {
     ctx.set_rule(rule);
     ctx.assume("element identity is the crate's Element: Eq + Hash (pointer identity); the tree is read through content() only");
     let (cases, maxlen) = match p {
-        Prop::C10 => (ctx.tier.pick(4_000u64, 150_000u64), 30),
-        Prop::C11 => (ctx.tier.pick(6_000u64, 200_000u64), 30),
-        _ => (ctx.tier.pick(5_000u64, 150_000u64), 40),
+        Prop::C10 => (ctx.tier.pick(30_000u64, 300_000u64), 30),
+        Prop::C11 => (ctx.tier.pick(30_000u64, 300_000u64), 30),
+        _ => (ctx.tier.pick(30_000u64, 300_000u64), 40),
     };
     let known_open = |sig: &str| ctx.is_known_open(sig);
     demonstrations(ctx, p);
